@@ -50,6 +50,13 @@ def gen(r, algo=None, focus=None, tier="quick", offgrid=False):
     cfg = {"algo": algo, "tps": tps, "duration": duration, "pools": pools, "cpus": cpus,
            "ram": float(ram) if ram.denominator != 1 else int(ram), "multi": multi, "over": over}
     pipes = gen_pipes(r, nticks, tps, ram, focus, offgrid=offgrid)
+    if r.random() < 0.02 and nticks > 0 and dk < 0.8:
+        # thousands of idle ticks before anything arrives
+        gap = r.choice([1000, 5000, 20000])
+        for p_ in pipes:
+            p_["at"] += gap
+        nticks += gap
+        cfg["duration"] = float(F(nticks, tps))
     scn = {"kind": "sys", "cfg": cfg, "pipes": pipes}
     if r.random() < 0.08:
         scn["params_as_file"] = True
@@ -96,6 +103,8 @@ def gen_pipes(r, nticks, tps, ram, focus=None, max_ops=5, offgrid=False):
             prio = r.choices(PRIOS, weights=mix)[0] if sum(mix) else "BATCH_PIPELINE"
             nops = 1 if (prio == "QUERY" and r.random() < 0.7) else r.randint(1, max_ops)
             shape = r.choice(shapes)
+            if r.random() < 0.01:
+                nops, shape = r.choice([30, 60, 100]), r.choice(["chain", "random"])      # far longer than the generator makes
             par = dag_parents(r, nops, shape)
             ops = []
             for oi in range(nops):
@@ -215,6 +224,15 @@ def gen_uncontended(r, tier="quick"):
         ops.append({"par": [i - 1] if i else [], "segs": segs})
     at = r.randint(0, 5)
     ram = max(1000, int(200 * unit) + 1000)
+    if r.random() < 0.3:
+        # every operator has a fixed memory size (0 included): a pool just above the largest of them is "enough memory",
+        # however much is read
+        for o in ops:
+            for sg in o["segs"]:
+                sg[2] = r.choice(["0", "0", "0.5", "2"])
+                if r.random() < 0.5:
+                    sg[3] = fstr((F(r.choice([2, 5, 9])) + F(r.choice([13, 50, 87]), 100)) * unit)
+        ram = r.choice([3, 2.5, 4])
     cfg = {"algo": algo, "tps": tps, "duration": float(F(at + total + r.randint(3, 10), tps)),
            "pools": 2 if algo == "priority-pool" else 1, "cpus": r.choice([1, 2, 4, 10, 16, 64]), "ram": ram,
            "multi": True if algo == "priority-pool" else r.random() < 0.5, "over": algo == "overbook"}
@@ -295,6 +313,41 @@ def expand_big(scn):
         prio = b["main"] if k % b["other_every"] else others[(k // b["other_every"]) % 2]
         pipes.append({"prio": prio, "at": k // b["per_tick"], "id": "p%d" % (k + 1), "ops": [{"par": [], "segs": seg}]})
     return dict(scn, pipes=pipes)
+
+
+def gen_many(r, algo, tier="quick"):
+    """History reach for the policies: 1 200 - 3 000 one-tick pipelines stream through while a few 'victim' pipelines
+    (a root, a child that runs for hundreds of ticks, a child that can never fit and fails until it is given up) stay
+    around - whatever a scheduler remembers about a pipeline must still hold a thousand pipelines later."""
+    tps = r.choice([1, 2, 10])
+    unit = F(20, tps)
+    pools = 2 if algo == "priority-pool" else r.choice([2, 4])
+    cpus = r.choice([4, 8])
+    ram = 64 * unit
+    n = r.randint(1200, 2000) if tier == "quick" else r.randint(1500, 3000)
+    per_tick = r.choice([3, 5, 8])
+    nticks = n // per_tick + r.randint(20, 60)
+    cfg = {"algo": algo, "tps": tps, "duration": float(F(nticks, tps)), "pools": pools, "cpus": cpus,
+           "ram": float(ram) if ram.denominator != 1 else int(ram), "multi": algo == "priority-pool" or r.random() < 0.5,
+           "over": algo == "overbook"}
+    small = fstr(unit / 4)
+    pipes = []
+    for v in range(r.randint(1, 3)):
+        long_ticks = r.randint(nticks // 2, nticks - 10)
+        big = fstr(ram * r.choice([2, 3]))
+        ops = [{"par": [], "segs": [[fstr(F(1, tps)), "const", small, "0"]]},
+               {"par": [0], "segs": [[fstr(F(long_ticks, tps)), "const", small, "0"]]},
+               {"par": [0], "segs": [[fstr(F(2, tps)), "const", big, "0"]]}]
+        if r.random() < 0.5:
+            ops.append({"par": [1], "segs": [[fstr(F(2, tps)), "const", small, "0"]]})
+        pipes.append({"prio": r.choice(PRIOS), "at": r.randint(0, 4), "ops": ops})
+    for k in range(n):
+        pipes.append({"prio": r.choice(PRIOS), "at": 5 + k // per_tick,
+                      "ops": [{"par": [], "segs": [[fstr(F(1, tps)), "const", small, "0"]]}]})
+    pipes.sort(key=lambda p_: p_["at"])
+    for k, p in enumerate(pipes):
+        p["id"] = "p%d" % (k + 1)
+    return {"kind": "sys", "cfg": cfg, "pipes": pipes}
 
 
 def gen_chaos(r, tier="quick"):
